@@ -7,7 +7,9 @@
 From Coq Require Import Strings.String.
 From GoCar Require Import Bytes Varint Cid Header Frame V2Header Index Store Val RunStore StoreSpec Deferred.
 
-Definition v_front (kn : N) : front := if kn =? 0 then FBs else FSt (kn =? 1).
+(* kinds: 0 blockstore.OpenReadWrite(path) | 5 blockstore.OpenReadWriteFile(caller's file) | 1,2,3 storage *)
+Definition v_front (kn : N) : front := if kn =? 0 then FBs else if kn =? 5 then FBf else FSt (kn =? 1).
+Definition v_mkind (kn : N) : skind := if kn =? 5 then KBlockstore else v_kind kn.
 
 Definition v_sop (op : val) : option sop :=
   let c := vB (vnth 1 op) in
@@ -49,7 +51,7 @@ Definition run_storemap (input : val) : val :=
   let o := v_wopts (vnth 1 input) in
   let roots := vcids (vnth 2 input) in
   let hdrdec := hdr_lookup (vL (vnth 5 input)) in
-  match open_new (v_kind kn) o (is_nil_tag (vnth 2 input)) roots [] with
+  match open_new (v_mkind kn) o (is_nil_tag (vnth 2 input)) roots [] with
   | Err e => VL [VL [VT "err"; v_err e]; VL []; VB []]
   | Ok s =>
     let tr := trace (impl_step hdrdec (v_front kn)) s (v_sops (vL (vnth 4 input))) in
@@ -117,7 +119,7 @@ Definition prop_storemap (input obs : val) : val :=
   let roots := vcids (vnth 2 input) in
   if negb (tag_is (vnth 0 obs) "nil") then VT "ok"      (* the store could not be opened: n/a *)
   else
-    let cls := String.append (if kn =? 0 then "blockstore" else "storage") (if w_v1 o then "-v1" else "-v2") in
+    let cls := String.append (if kn =? 0 then "blockstore" else if kn =? 5 then "blockstore-callers-file" else "storage") (if w_v1 o then "-v1" else "-v2") in
     check_steps (v_front kn) o roots cls m_empty (v_sops (vL (vnth 4 input))) (vL (vnth 1 obs)).
 
 (* ==== kind "deferred" (C20) ===============================================================================
